@@ -204,6 +204,11 @@ func TestC15Isolation(t *testing.T) {
 					if err != nil {
 						t.Fatalf("UpdateActionResult: %v", err)
 					}
+					if len(ar.StdoutRaw) > 0 {
+						// the gRPC upload also stores inlined stdout in the CAS; a one-byte
+						// stdout can be the very content a pool key is the hash of
+						w.cas[gen.SHA(ar.StdoutRaw)] = ar.StdoutRaw
+					}
 				} else {
 					body, _ := proto.Marshal(ar)
 					if code, _, b := httpDo(w, s.URL, "PUT", inst, "ac", keys[i], nil, body); code != 200 {
